@@ -1,6 +1,8 @@
 package main
 
 import (
+	"context"
+	"errors"
 	"net"
 	"os"
 	"strconv"
@@ -251,5 +253,118 @@ func childReads() {
 		l.close()
 	}
 	emit("X", "pipelined_read_payload_failures", strconv.Itoa(bad))
+	emit("D")
+}
+
+// childCtx: calls on ONE session under contexts of different kinds, with real
+// time passing between them: no deadline; a deadline that is still far away
+// when the call completes; then - after that deadline has passed - no
+// deadline again; a cancelled context; a deadline that expires while the
+// session is still working on the call; and again no deadline.  A call's
+// context belongs to that call: every call made without a deadline must
+// complete with the session's result whatever contexts earlier calls had.
+// Both connection kinds honour write deadlines.
+func childCtx() {
+	seed, _ := strconv.ParseUint(os.Getenv("C09_SEED"), 10, 64)
+	rounds, _ := strconv.Atoi(os.Getenv("C09_ROUNDS"))
+	r := prng.New(seed)
+	bad := 0
+	for round := 0; round < rounds; round++ {
+		connKind := []string{"pipe", "buf"}[round%2]
+		msize := r.Pick(1024, 8192, 65536)
+		l, err := dial(connKind, msize, msize)
+		if err != nil {
+			emit("F", "setup.negotiation."+connKind, "could not establish a session: "+err.Error(), "(setup)", "{}")
+			continue
+		}
+		next := 0
+		byFid := map[p9p.Fid]*call{} // by fid, not "the call in flight": an abandoned call may reach the session late
+		l.S.mu.Lock()
+		l.S.byFid = byFid
+		l.S.mu.Unlock()
+		mk := func() *call {
+			next++
+			fid := p9p.Fid(7000 + 3*next)
+			c := deepCall(r, r.Intn(4), fid, msize)
+			l.S.mu.Lock()
+			byFid[fid] = c
+			l.S.mu.Unlock()
+			return c
+		}
+		// run: issue one call under ctx; mustComplete says the property determines the result
+		run := func(label string, ctx context.Context, c *call, mustComplete bool) bool {
+			done := make(chan struct{})
+			go func() { c.invoke(ctx, l.cs); close(done) }()
+			select {
+			case <-done:
+			case <-time.After(callTimeout):
+				bad++
+				emit("F", "flow.no-return.ctx-sequence."+connKind, "a call in a sequence of calls under different contexts did not return ("+label+")",
+					sx.String(c.caseSexp(msize, msize)), detail("step", label, "stacks", trim(stacks(), 6000)))
+				return false
+			}
+			if !mustComplete {
+				return true
+			}
+			c.mu.Lock()
+			gerr := c.gotErr
+			got := c.got
+			c.mu.Unlock()
+			_, egot := c.expect(msize, msize)
+			if egot != nil && (got == nil || sx.String(got) != sx.String(egot)) {
+				bad++
+				var ne net.Error
+				if gerr != nil && (errors.As(gerr, &ne) || strings.Contains(gerr.Error(), "timeout")) {
+					emit("F", "ctx.earlier-deadline-leaks-into-later-call."+connKind,
+						"a call made WITHOUT a deadline failed with an I/O time-out after an earlier call's context deadline had passed ("+label+"); the served session would have answered",
+						sx.String(c.caseSexp(msize, msize)), detail("step", label, "error", gerr.Error(), "conn", connKind))
+				}
+			}
+			report(c, msize, msize, connKind+"-ctxseq", false)
+			return true
+		}
+		bg := l.ctx
+		ok := run("1: no deadline", bg, mk(), true)
+		// 2: a deadline far enough away that the call completes well before it, even on a loaded box
+		dl := time.Now().Add(2 * time.Second)
+		ctx2, cancel2 := context.WithDeadline(bg, dl)
+		if ok {
+			c2 := mk()
+			ok = run("2: deadline in 2s", ctx2, c2, false)
+			c2.mu.Lock()
+			e2 := c2.gotErr
+			c2.mu.Unlock()
+			if ok && e2 == nil {
+				report(c2, msize, msize, connKind+"-ctxseq", false)
+			}
+		}
+		if ok {
+			time.Sleep(time.Until(dl) + 300*time.Millisecond)
+			ok = run("3: no deadline, after the deadline of call 2 has passed", bg, mk(), true)
+		}
+		cancel2()
+		if ok {
+			ctx4, cancel4 := context.WithCancel(bg)
+			cancel4()
+			ok = run("4: cancelled context", ctx4, mk(), false)
+		}
+		if ok {
+			ok = run("5: no deadline, after a cancelled call", bg, mk(), true)
+		}
+		if ok {
+			c6 := mk()
+			c6.sc.delay = 600 * time.Millisecond
+			ctx6, cancel6 := context.WithTimeout(bg, 150*time.Millisecond)
+			ok = run("6: deadline expires while the session is working", ctx6, c6, false)
+			cancel6()
+			time.Sleep(700 * time.Millisecond) // let the late reply of call 6 arrive
+		}
+		if ok {
+			run("7: no deadline, after a call that timed out", bg, mk(), true)
+			run("8: no deadline", bg, mk(), true)
+		}
+		l.close()
+	}
+	emit("X", "ctx_sequence_failures", strconv.Itoa(bad))
 	emit("D")
 }
